@@ -457,6 +457,167 @@ def history_from_json(j):
 
 
 # --------------------------------------------------------------------------
+# the profile channel (Props/C18.v (d): C18_profile_file_eq_string, C18_profile_run_file_eq_string)
+# --------------------------------------------------------------------------
+
+_PMB = {}
+
+
+def _profile_case(case):
+    """one Shaper, a short history with profile_graph on BOTH sinks; every profile output must be the text a fresh
+    Shaper returns with string_output=True (oracle), and that text must be Model.RunProfile.run_profile_json's
+    (entries profile_json / profile_json_file), byte for byte"""
+    from shexer.shaper import Shaper
+    from vp import pipe, pipeprofile
+    warnings.filterwarnings("ignore")
+    ts, cfg, variant = case["ts"], case["cfg"], case["variant"]
+    doc = case.get("doc") or pipe.nt_doc(ts)
+    kw = pipe.shaper_kwargs(cfg)
+    k, m = cfg["thr"]
+    path = os.path.join(D, "profile_%d.json" % os.getpid())
+
+    def guarded(f):
+        import signal
+        old = signal.signal(signal.SIGALRM, pipe._alarm)
+        signal.setitimer(signal.ITIMER_REAL, 20.0)
+        try:
+            return f()
+        except pipe.Hang:
+            return "EXC Hang"
+        except Exception as e:  # noqa: BLE001
+            return "EXC " + type(e).__name__
+        finally:
+            signal.setitimer(signal.ITIMER_REAL, 0)
+            signal.signal(signal.SIGALRM, old)
+
+    def prof_s(sh):
+        return guarded(lambda: "T" + sh.profile_graph(string_output=True))
+
+    def prof_f(sh):
+        def go():
+            with open(path, "w") as f:
+                f.write("stale content that must disappear\n" * 3)
+            r = sh.profile_graph(output_file=path)
+            with open(path, newline="") as f:
+                return ("T" if r is None else "?returned %r " % (r,)) + f.read()
+        return guarded(go)
+
+    def shex_s(sh):
+        return guarded(lambda: "T" + sh.shex_graph(string_output=True, acceptance_threshold=k / m))
+
+    fresh_p = prof_s(Shaper(raw_graph=doc, **kw))
+    fresh_s = shex_s(Shaper(raw_graph=doc, **kw))
+    ops = {0: "sf", 1: "fs", 2: "Xfs", 3: "sXf", 4: "fXsf"}[variant % 5]
+    sh = guarded(lambda: Shaper(raw_graph=doc, **kw))
+    outs = []
+    if isinstance(sh, str):
+        outs = [sh] * len(ops)
+    else:
+        for o in ops:
+            outs.append(prof_s(sh) if o == "s" else prof_f(sh) if o == "f" else shex_s(sh))
+    spec_fail = []
+    after_exc = 0
+    raised = False
+    for i, (o, got) in enumerate(zip(ops, outs)):
+        want = fresh_s if o == "X" else fresh_p
+        if raised:
+            # the state of a Shaper after a call that raised is outside the property (no result was produced);
+            # a retry is monitored, not judged
+            after_exc += got != want
+        elif got != want:
+            spec_fail.append((i, o, got[:400], want[:400]))
+        raised = raised or got.startswith("EXC")
+    mb = _PMB.get(os.getpid())
+    if mb is None:
+        mb = _PMB[os.getpid()] = core.ModelBin()
+    corr_fail = []
+    if "doc" not in case or case.get("ts") is not None:
+        t = pipe.model_table(ts, cfg)
+        for entry in ("profile_json", "profile_json_file"):
+            row = mb.call(entry, t)[0]
+            mod = ("T" + row[1]) if row[0] == "ok" else ("EXC " + row[1])
+            if mod != fresh_p:
+                corr_fail.append((entry, mod[:400], fresh_p[:400]))
+    return {"spec_fail": spec_fail, "corr_fail": corr_fail, "ops": ops, "ok": fresh_p.startswith("T"), "after_exc": after_exc,
+            "len": len(fresh_p), "nonascii": any(ord(c) > 126 for c in doc)}
+
+
+def profile_channel(run, tier, rnd, replay=None):
+    """profile_graph on the string and the file sink, inside short histories, on random graphs x configurations
+    (both values of inverse_paths, targets, caps) and on pinned documents with non-ASCII IRIs; adds its verdicts
+    and its coverage to `run`"""
+    from vp import pipe, pipeprops
+    e = "http://ex.org/"
+    uni = [(("I", e + "aé"), pipe.RDF_TYPE, ("I", e + "C€")),
+           (("I", e + "aé"), e + "p\U0001F600", ("I", e + "b￿")),
+           (("I", e + "b￿"), pipe.RDF_TYPE, ("I", e + "D\U00010000")),
+           (("I", e + "b￿"), e + "q\u007f", ("L", "x", e + "dtĀ")),
+           (("I", e + "aé"), e + "p\U0001F600", ("B", "_:x"))]
+    cases = []
+    if replay:
+        with open(replay) as f:
+            rp = json.load(f)
+        if "profile_case" in rp:
+            c = rp["profile_case"]
+            cases.append({"ts": pipeprops.tuplify(c["ts"]), "cfg": c["cfg"], "variant": c["variant"]})
+        else:
+            return
+    else:
+        n = 6000 if tier == "thorough" else 600
+        for i in range(n):
+            r = random.Random(rnd.getrandbits(48))
+            ts = pipe.gen_graph(r, general=(i % 3 != 0))
+            if i % 11 == 0:
+                ts.append((ts[0][0], pipe.RDF_TYPE, ("L", "x", pipe.XSD + "string")))     # AttributeError on every channel
+            cfg = pipeprops.random_cfg(r, ts, i)
+            cfg["inverse_paths"] = bool(i % 2)
+            cases.append({"ts": ts, "cfg": cfg, "variant": i})
+        for v in range(5):
+            for inv in (False, True):
+                cfg = pipe.base_cfg()
+                cfg["inverse_paths"] = inv
+                cases.append({"ts": uni, "cfg": cfg, "variant": v})
+    t0 = time.time()
+    results = core.pool_map(_profile_case, cases, chunksize=8)
+    spec_fail = [(c, r) for c, r in zip(cases, results) if r["spec_fail"]]
+    corr_fail = [(c, r) for c, r in zip(cases, results) if r["corr_fail"]]
+
+    def payload(c, extra):
+        d = {"profile_case": {"ts": [list(map(list, (s, o))) [:1] + [p] + [list(o)] for s, p, o in c["ts"]],
+                              "cfg": c["cfg"], "variant": c["variant"]},
+             "document": pipe.nt_doc(c["ts"])[:3000]}
+        d["profile_case"]["ts"] = [[list(s), p, list(o)] for s, p, o in c["ts"]]
+        d.update(extra)
+        return d
+
+    for c, r in spec_fail[:3]:
+        i, o, got, want = r["spec_fail"][0]
+        what = "shex_graph after profile_graph" if o == "X" else "profile_graph (%s sink)" % ("file" if o == "f" else "string")
+        run.violation("%s: output differs from what a fresh Shaper answers with string_output=True (history %s, op %d)"
+                      % (what, r["ops"], i), payload(c, {"history": r["ops"], "failing_op": i, "got": got, "want": want}))
+    if not spec_fail and corr_fail:
+        c, r = corr_fail[0]
+        entry, mod, real = r["corr_fail"][0]
+        run.violation("correspondence of the profile-text model (Model.RunProfile.%s) vs Shaper.profile_graph no longer "
+                      "checks" % entry,
+                      payload(c, {"broken": "correspondence Model.RunProfile.run_profile_json vs Shaper.profile_graph, "
+                                            "byte for byte", "model": mod, "real": real,
+                                  "n_disagreements": len(corr_fail)}), failing_input=False)
+    run.coverage["profile_channel"] = {
+        "cases": len(cases), "profile_calls": sum(sum(1 for o in r["ops"] if o != "X") for r in results),
+        "texts": sum(1 for r in results if r["ok"]), "exceptions_same_on_every_channel": sum(1 for r in results if not r["ok"]),
+        "documents_with_non_ascii_iris": sum(1 for r in results if r["nonascii"]),
+        "histories": "sf fs Xfs sXf fXsf (s/f = profile_graph to string/file, X = shex_graph), round-robin",
+        "oracle_failures": len(spec_fail), "disagreements_model_vs_impl": len(corr_fail),
+        "longest_text_bytes": max([r["len"] for r in results] or [0]), "wall_s": round(time.time() - t0, 1),
+        "monitored_not_judged": {"calls_after_a_raising_call_that_answer_differently_from_a_fresh_Shaper":
+                                 sum(r["after_exc"] for r in results)},
+        "rule": "random graphs of vp.pipe.gen_graph x random accepted configurations, inverse_paths alternating; "
+                "every profile output (either sink, anywhere in the history) = fresh Shaper's string output = both "
+                "entries of the model"}
+
+
+# --------------------------------------------------------------------------
 
 def run(tier, seed, replay=None):
     run = core.Run("C18", tier, seed)
@@ -596,6 +757,8 @@ def run(tier, seed, replay=None):
     for fid, name, h, k in regressions:
         spec_fail_unknown.append((name, h, k, ["regression of fixed finding " + fid]))
 
+    profile_channel(run, tier, rnd, replay)      # profile_graph: file sink = string sink = model text
+
     # ---- verdicts
     for name, h, k, rcs in spec_fail_unknown[:5]:
         outs, snaps = run_history(cfgs[name], h, "viol")
@@ -607,7 +770,7 @@ def run(tier, seed, replay=None):
                            got=outs[k][:2000], want=want[:2000]))
     for name, h, k in dom_viol[:3]:
         if not spec_fail_unknown:
-            run.violation("oracle fails inside C18_dom (theorem C18_history_partial covers this history)",
+            run.violation("oracle fails inside C18_dom (theorem C18_pure covers this history)",
                           dict(history_json(name, h), failing_op=k))
     if not spec_fail_unknown and not dom_viol:
         if corr_fail or group_conflicts:
@@ -648,7 +811,7 @@ def run(tier, seed, replay=None):
         "SHACL texts are compared as prefix lines + graph up to blank-node renaming (rdflib orders blank nodes by "
         "random id; two serialisations of one graph differ textually)",
         "rdflib Graph.serialize / json.dump write to a file what they return as a string (external; monitored here)",
-        "hypothesis shacl_ignores_examples of C18_history_partial: monitored by every SHACL-after-ShExC call of the "
+        "hypothesis shacl_ignores_examples of C18_pure: monitored by every SHACL-after-ShExC call of the "
         "'examples' configuration",
         "the denotation shim (reference text + PREFIX block + repeated example comments) is trusted harness code",
     ]
